@@ -19,3 +19,11 @@ def c08() -> Monitors:
 
 def c17() -> Monitors:
     return Monitors("C17", [m.c17_transition, m.cov_matrix], [m.c17_initial], m.outcome_vector)
+
+
+def c03() -> Monitors:
+    return Monitors("C03", [m.c03_transition, m.cov_matrix], [], m.outcome_vector)
+
+
+def c17_builtin() -> Monitors:
+    return Monitors("C17", [m.c17_transition, m.c17_builtin_only, m.cov_matrix], [m.c17_initial], m.outcome_vector)
